@@ -3,7 +3,7 @@
    REPAIRED code (fixes/C18_*.patch applied). *)
 From Coq Require Import ZArith List Bool.
 Import ListNotations.
-From KD Require Import C18.Model C18.Spec C18.Proofs.
+From KD Require Import C18.Model C18.Spec C18.Check C18.Proofs.
 Open Scope Z_scope.
 
 (* For every list of members (any modes, any collate functions, also failing runs),
@@ -51,6 +51,40 @@ Theorem ctx_keys_not_lost :
 Proof. exact ctx_keys_kept. Qed.
 Print Assumptions ctx_keys_not_lost.
 
+(* the merge of the per-sample contexts itself (default_collate of the list of dicts).
+   Samples with one common key list: the merge succeeds, has exactly the samples' keys, and under
+   every key the value of every sample, in batch order -- nothing lost, nothing invented. *)
+Theorem ctx_merge_lossless_for_uniform_keys :
+  forall c0 l,
+    (forall c, In c (c0 :: l) -> map fst c = map fst c0) -> NoDup (map fst c0) ->
+    exists x, collate_ctx (c0 :: l) = Some x /\ keys x = map fst c0 /\
+      forall i c k v, nth_error (c0 :: l) i = Some c -> In (k, v) c ->
+        exists vs, In (k, vs) x /\ nth_error vs i = Some v /\ length vs = length (c0 :: l).
+Proof. exact collate_ctx_lossless_lem. Qed.
+Print Assumptions ctx_merge_lossless_for_uniform_keys.
+
+(* ANY samples: every key of the merged context is a key of the first sample, and every value
+   under it is the value the corresponding sample holds under that key *)
+Theorem ctx_merge_invents_nothing :
+  forall l x k vs,
+    collate_ctx l = Some x -> In (k, vs) x ->
+    length vs = length l /\
+    forall i v, nth_error vs i = Some v -> exists c, nth_error l i = Some c /\ lookup k c = Some v.
+Proof. exact collate_ctx_sound_lem. Qed.
+Print Assumptions ctx_merge_invents_nothing.
+
+(* the same through the whole pipeline *)
+Theorem pipeline_ctx_lossless_for_uniform_keys :
+  forall m ms s0 l t bo xo,
+    Forall keeps_ctx (m :: ms) ->
+    (forall s, In s (s0 :: l) -> map fst (snd s) = map fst (snd s0)) -> NoDup (map fst (snd s0)) ->
+    call_impl true (m :: ms) (BRaw (s0 :: l)) = (t, Ok bo xo) ->
+    exists x, xo = Some x /\ keys x = map fst (snd s0) /\
+      forall i s k v, nth_error (s0 :: l) i = Some s -> In (k, v) (snd s) ->
+        exists vs, In (k, vs) x /\ nth_error vs i = Some v /\ length vs = length (s0 :: l).
+Proof. exact pipeline_ctx_lossless_lem. Qed.
+Print Assumptions pipeline_ctx_lossless_for_uniform_keys.
+
 (* layout: with members that keep the layout they are given, the result has the layout of
    the dataset mode — n entries in mode order over B samples, collated iff some member asks
    for collation — and no context is left inside the batch *)
@@ -62,9 +96,11 @@ Theorem layout_preserved :
 Proof. exact call_layout. Qed.
 Print Assumptions layout_preserved.
 
-(* padding collator: every field, position by position: sequences = original ++ zeros up to
-   the batch maximum (attained by some row), all rows equally long; other fields as default
-   collation *)
+(* padding collator: every field, position by position: a column of sequences (tensors
+   (L_i, *trailing) of one dtype) = tensor of the same dtype and trailing shape, row i =
+   original steps ++ all-zero steps up to the batch maximum of the NUMBER OF STEPS (attained
+   by some row), all rows equally long, every step still a block of prod(trailing) numbers;
+   other fields as default collation *)
 Theorem pad_to_batch_max_with_zeros :
   forall s0 l cs,
     pad_items (s0 :: l) = Some cs ->
@@ -75,7 +111,7 @@ Proof. exact pad_items_fieldwise. Qed.
 Print Assumptions pad_to_batch_max_with_zeros.
 
 Theorem pad_other_fields_as_default :
-  forall z col out, pad_col (FScalar z :: col) = Some out -> collate_col (FScalar z :: col) = Some out.
+  forall d z col out, pad_col (FScalar d z :: col) = Some out -> collate_col (FScalar d z :: col) = Some out.
 Proof. exact pad_scalar_as_default. Qed.
 Print Assumptions pad_other_fields_as_default.
 
@@ -88,19 +124,50 @@ Theorem pad_with_and_without_ctx :
 Proof. exact pad_pipelines. Qed.
 Print Assumptions pad_with_and_without_ctx.
 
+(* the member collators used by the correspondence run (identity, marking, context-writing,
+   "real collator seen through its contract", padding) meet the contracts the theorems above
+   assume: none loses a context key, none adds a key it does not announce, the ones that are not
+   context writers leave the context alone, all but the (self-collating) padding collator keep
+   the layout they are given *)
+Theorem harness_members_meet_their_contracts :
+  forall mk,
+    extends_ctx (member_of mk) /\
+    (forall b x b' x', mcollate (member_of mk) b x = Some (b', x') -> incl (keys x') (keys x ++ written_keys (snd mk))) /\
+    (is_ctxw (snd mk) = false -> keeps_ctx (member_of mk)) /\
+    (is_pad (snd mk) = false -> forall n B, keeps_layout n B (member_of mk)).
+Proof.
+  exact (fun mk => conj (member_of_extends_ctx mk) (conj (member_of_adds_only_announced mk)
+           (conj (member_of_keeps_ctx mk) (fun H n B => member_of_keeps_layout n B mk H)))).
+Qed.
+Print Assumptions harness_members_meet_their_contracts.
+
+(* the boolean padding test the correspondence run evaluates on the REAL output tensors
+   (Check.padded_fieldb: same dtype, same trailing shape, all rows equally long, row i = sample i
+   followed by steps of exactly prod(trailing) zeros, length attained by some sample) implies the
+   padding clause of the spec *)
+Theorem padding_test_implies_spec :
+  forall col out, padded_fieldb col out = true -> padded_field col out.
+Proof. exact padded_fieldb_sound. Qed.
+Print Assumptions padding_test_implies_spec.
+
 (* ---- non-vacuity and the defects of the old code ---- *)
-Definition ex_items : list (list field) := [[FScalar 0; FSeq [5; 6]]; [FScalar 1; FSeq [7]]].
-Definition ex_raw : batch := BRaw [([FScalar 0; FSeq [5; 6]], [(1, 10)]); ([FScalar 1; FSeq [7; 8]], [(1, 11)])].
+Definition ex_items : list (list field) :=
+  [[FScalar DI64 0; FSeq DI64 [] [[5]; [6]]]; [FScalar DI64 1; FSeq DI64 [] [[7]]]].
+Definition ex_raw : batch :=
+  BRaw [([FScalar DI64 0; FSeq DI64 [] [[5]; [6]]], [(1, 10)]); ([FScalar DI64 1; FSeq DI64 [] [[7]; [8]]], [(1, 11)])].
+(* float32 sequences of feature vectors, shapes (2,3) and (1,3), and a Python float *)
+Definition ex_items_nd : list (list field) :=
+  [[FSeq DF32 [3%nat] [[1; 2; 3]; [4; 5; 6]]; FScalar DF64 2]; [FSeq DF32 [3%nat] [[7; 8; 9]]; FScalar DF64 3]].
 
 (* successful runs exist for [After; Before] (with ctx) and [None; Before] (with ctx) *)
 Example ok_after_before :
   call_impl true [id_member MAfter; id_member MBefore] ex_raw =
   ([SplitCtx; CollateCtx; Call 0; DefaultCollate; Call 1],
-   Ok (BColl [CVec [0; 1]; CMat [[5; 6]; [7; 8]]]) (Some [(1, [10; 11])])).
+   Ok (BColl [CVec DI64 [0; 1]; CMat DI64 [] [[[5]; [6]]; [[7]; [8]]]]) (Some [(1, [10; 11])])).
 Proof. vm_compute. reflexivity. Qed.
 Example ok_none_before :
   snd (call_impl true [id_member MNone; id_member MBefore] ex_raw) =
-  Ok (BColl [CVec [0; 1]; CMat [[5; 6]; [7; 8]]]) (Some [(1, [10; 11])]).
+  Ok (BColl [CVec DI64 [0; 1]; CMat DI64 [] [[[5]; [6]]; [[7]; [8]]]]) (Some [(1, [10; 11])]).
 Proof. vm_compute. reflexivity. Qed.
 (* D22 on the old code: [After; Before] default-collates twice *)
 Example at_most_once_refuted_on_old_code :
@@ -113,7 +180,12 @@ Proof. vm_compute. reflexivity. Qed.
 (* padding *)
 Example pad_example :
   call_impl false [pad_member] (BItems ex_items) =
-  ([Call 0], Ok (BColl [CVec [0; 1]; CMat [[5; 6]; [7; 0]]]) None).
+  ([Call 0], Ok (BColl [CVec DI64 [0; 1]; CMat DI64 [] [[[5]; [6]]; [[7]; [0]]]]) None).
+Proof. vm_compute. reflexivity. Qed.
+(* trailing dimensions: padded to 2 steps (not 6 numbers), one zero step of 3 numbers *)
+Example pad_example_trailing :
+  pad_items ex_items_nd =
+  Some [CMat DF32 [3%nat] [[[1; 2; 3]; [4; 5; 6]]; [[7; 8; 9]; [0; 0; 0]]]; CVec DF64 [2; 3]].
 Proof. vm_compute. reflexivity. Qed.
 Example layout_premises_satisfiable :
   raw_input 2 2 true ex_raw /\ Forall (keeps_layout 2 2) [id_member MAfter; id_member MBefore].
@@ -121,4 +193,21 @@ Proof.
   split.
   - simpl. split; [reflexivity|]. split; [reflexivity|]. repeat constructor.
   - repeat constructor; intros b x b' x' c H Hl; simpl in H; inversion H; subst; exact Hl.
+Qed.
+
+(* FINDING (fixes/C18_ragged_ctx_keys.txt): samples whose contexts have DIFFERENT keys (e.g. behind
+   KDRandomApply, whose skip path writes nothing) -- the merge follows the first sample: a key only
+   later samples have is silently lost, a key a later sample lacks raises KeyError *)
+Example ragged_ctx_key_silently_lost :
+  collate_ctx [[(1, 10)]; [(1, 11); (2, 5)]] = Some [(1, [10; 11])].
+Proof. vm_compute. reflexivity. Qed.
+Example ragged_ctx_key_error : collate_ctx [[(1, 10); (2, 5)]; [(1, 11)]] = None.
+Proof. vm_compute. reflexivity. Qed.
+Example ctx_merge_premises_satisfiable :
+  (forall c, In c [[(1, 10); (2, 5)]; [(1, 11); (2, 6)]] -> map fst c = map fst [(1, 10); (2, 5)]) /\
+  NoDup (map fst [(1, 10); (2, 5)]).
+Proof.
+  split.
+  - intros c [<-|[<-|[]]]; reflexivity.
+  - repeat constructor; simpl; intuition discriminate.
 Qed.
